@@ -1,4 +1,5 @@
 import ShVerif.Model.C34
+import ShVerif.Proofs.C34
 /-
   C34 — Environment lists behave like an ordered map.  Property theorems (statements are fixed;
   helper lemmas live in ShVerif/Proofs/C34.lean).
@@ -19,13 +20,21 @@ def KeysIncreasing : List (Bytes × Bytes) → Prop
 
 /-- `listEnviron_` never hits the `slices.Delete(list, i-1, i)` panic. -/
 theorem listEnviron_total (pairs : List Bytes) : ∃ l, listEnviron pairs = some l := by
-  sorry
+  obtain ⟨l, h, _⟩ := listEnviron_inv pairs
+  exact ⟨l, h⟩
 
 /-- Get returns the last value given for a name, and nothing for names never given — for every
     pair list and **every** name (including names containing `=`, empty names). -/
 theorem get_spec (pairs : List Bytes) (name : Bytes) (l : List Bytes)
     (h : listEnviron pairs = some l) : get l name = ofSpec (specGet pairs name) := by
-  sorry
+  obtain ⟨l', h1, hv, hs, hg⟩ := listEnviron_inv pairs
+  rw [h] at h1
+  cases h1
+  obtain ⟨g1, g2⟩ := get_inv l name hv hs
+  rw [← hg name]
+  cases hsp : specGet l name with
+  | none => exact g2 hsp
+  | some v => exact g1 v hsp
 
 /-- Get never panics. -/
 theorem get_no_panic (pairs : List Bytes) (name : Bytes) (l : List Bytes)
@@ -37,17 +46,39 @@ theorem get_no_panic (pairs : List Bytes) (name : Bytes) (l : List Bytes)
 theorem each_spec (pairs : List Bytes) (l : List Bytes) (h : listEnviron pairs = some l) :
     ∃ nvs, each l = some nvs ∧ KeysIncreasing nvs ∧
       ∀ n v, (n, v) ∈ nvs ↔ specGet pairs n = some v := by
-  sorry
+  obtain ⟨l', h1, hv, hs, hg⟩ := listEnviron_inv pairs
+  rw [h] at h1
+  cases h1
+  obtain ⟨nvs, e1, e2, e3⟩ := each_inv l hv hs
+  refine ⟨nvs, e1, ?_, ?_⟩
+  · clear e1 e3
+    induction nvs with
+    | nil => trivial
+    | cons a rest ih =>
+      rw [List.pairwise_cons] at e2
+      cases rest with
+      | nil => trivial
+      | cons b rest => exact ⟨e2.1 b (List.mem_cons_self ..), ih e2.2⟩
+  · intro n v
+    rw [e3, ← hg n, specGet_eq_some_iff l n v hv hs]
 
 /-- Invalid pairs (no `=`, or empty name) are ignored: they never influence any lookup. -/
 theorem invalid_ignored (pairs : List Bytes) (name : Bytes) :
     specGet pairs name = specGet (pairs.filter fun p => (validPair p).isSome) name := by
-  sorry
+  rw [specGet_eq, specGet_eq]
+  exact foldl_step_filter_valid pairs name none
 
 /-- FuncEnviron treats an empty value as unset. -/
 theorem func_environ (f : Bytes → Bytes) (name : Bytes) :
     (funcGet f name = none ↔ f name = []) ∧ (∀ v, funcGet f name = some v → v = f name ∧ v ≠ []) := by
-  sorry
+  unfold funcGet
+  by_cases h : f name = []
+  · simp [h]
+  · simp only [h, if_false]
+    refine ⟨by simp, ?_⟩
+    intro v hv
+    cases hv
+    exact ⟨rfl, h⟩
 
 /-! Non-vacuity: a concrete list with duplicates, an invalid pair and prefix-related names. -/
 example : listEnviron [[65,61,49], [65,49,61,50], [122], [65,61,51]]
